@@ -179,7 +179,7 @@ type bothMatcher interface {
 
 func (rt *matcherRT) build(m MatcherSpec) bothMatcher {
 	if m.Relaxed && m.ErrMissing == nil {
-		m.ErrMissing = boolp(true) // the final setting is spelled out
+		m.ErrMissing = vhBoolp(true) // the final setting is spelled out
 	}
 	switch m.Kind {
 	case "any":
@@ -471,13 +471,13 @@ func outcomeOf(r callResult) (string, error) {
 		}
 		return oFailed, nil
 	}
-	return "", fmt.Errorf("not exactly one outcome: errors=%q logs=%q events=%v", clipAll(r.Errors), clipAll(r.Logs), r.Events)
+	return "", fmt.Errorf("not exactly one outcome: errors=%q logs=%q events=%v", vhClipAll(r.Errors), vhClipAll(r.Logs), r.Events)
 }
 
-func clipAll(ss []string) []string {
+func vhClipAll(ss []string) []string {
 	out := make([]string, len(ss))
 	for i, s := range ss {
-		out[i] = clip(s)
+		out[i] = vhClip(s)
 	}
 	return out
 }
@@ -485,9 +485,9 @@ func clipAll(ss []string) []string {
 // snapText: formatted text of a single-value MatchSnapshot / MatchStandaloneSnapshot call.
 func (c Call) snapText() string { return pretty.Sprint(c.Vals[0].Go()) }
 
-func readFile(p string) string {
+func vhReadFile(p string) string {
 	b, _ := os.ReadFile(p)
 	return string(b)
 }
 
-func boolp(b bool) *bool { return &b }
+func vhBoolp(b bool) *bool { return &b }
